@@ -738,9 +738,9 @@ class AttrSpec:
         object.
         """
         args = f"{self.foreground!r}, {self.background!r}"
-        if self.colors == 88:
-            # 88-color mode is the only one that is handled differently
-            args = f"{args}, colors=88"
+        if self.colors in {88, 2**24}:
+            # these depths parse color descriptions differently from the default of 256
+            args = f"{args}, colors={self.colors}"
         return f"{self.__class__.__name__}({args})"
 
     def _foreground_color(self) -> str:
